@@ -29,6 +29,7 @@ import (
 	"istio.io/istio/pilot/pkg/networking/core"
 	v3 "istio.io/istio/pilot/pkg/xds/v3"
 	"istio.io/istio/pkg/config/host"
+	"istio.io/istio/pkg/config/protocol"
 	"istio.io/istio/pkg/util/sets"
 	"verifharness/internal/wire"
 )
@@ -95,10 +96,68 @@ func genKernel(stream string, seed uint64, n int, path string) {
 					o.Line("rds", wire.Pick(r, []string{"sidecar", "router"}), wire.EncList(req))
 				}
 			}
+		case "lconflict":
+			// the whole finite domain, one case per incoming protocol (the seed only shuffles the order)
+			if i > len(lcProtos) {
+				return
+			}
+			in := lcProtos[(i-1+int(seed))%len(lcProtos)]
+			for _, wild := range []string{"0", "1"} {
+				o.Line("lc", in, wild, "-")
+				for _, cur := range lcProtos {
+					for _, locked := range []string{"0", "1"} {
+						o.Line("lc", in, wild, cur+":"+locked)
+					}
+				}
+			}
 		default:
 			fmt.Fprintln(os.Stderr, "unknown stream", stream)
 			os.Exit(2)
 		}
+	}
+}
+
+var lcProtos = []string{"GRPC", "GRPC-Web", "HTTP", "HTTP_PROXY", "HTTP2", "HTTPS", "TCP", "TLS", "UDP", "Mongo", "Redis", "MySQL", "HBONE", "DoubleHBONE", "UnsupportedProtocol"}
+
+type lcWorld struct {
+	fl   *failer
+	cg   *core.ConfigGenTest
+	node *model.Proxy
+	svc  *model.Service
+}
+
+func newLcWorld() *lcWorld {
+	fl := &failer{}
+	svc := &model.Service{Hostname: "lc.default.svc.cluster.local", DefaultAddress: "10.0.0.9",
+		Attributes: model.ServiceAttributes{Name: "lc", Namespace: "default"}, Ports: model.PortList{{Name: "p", Port: 7777, Protocol: "TCP"}}}
+	cg := core.NewConfigGenTest(fl, core.TestOptions{Services: []*model.Service{svc}})
+	node := cg.SetupProxy(&model.Proxy{ConfigNamespace: "default"})
+	return &lcWorld{fl: fl, cg: cg, node: node, svc: svc}
+}
+
+// lcStep runs the REAL buildSidecarOutboundListener for one row of the conflict table.
+func (w *lcWorld) lcStep(in, wild, cur string) string {
+	bind := "10.9.9.9"
+	if wild == "1" {
+		bind = "0.0.0.0"
+	}
+	var current *core.VerifC14Entry
+	if cur != "-" {
+		p, l, _ := strings.Cut(cur, ":")
+		current = &core.VerifC14Entry{Protocol: protocol.Instance(p), Locked: l == "1"}
+	}
+	port := &model.Port{Name: "p", Port: 7777, Protocol: protocol.Instance(in)}
+	after, replaced, keys := core.VerifC14OutboundConflict(w.node, w.cg.PushContext(), w.svc, port, bind, current)
+	k := " keys=" + strconv.Itoa(keys)
+	switch {
+	case after == nil:
+		return "skip" + k
+	case current == nil || replaced:
+		return "new " + string(after.Protocol) + k
+	case after.Chains > 1 || after.Protocol != current.Protocol:
+		return "merge " + string(after.Protocol) + k
+	default:
+		return "skip" + k
 	}
 }
 
@@ -210,6 +269,7 @@ func (a *answerWorld) gen(px *model.Proxy, typ string, names []string) (res mode
 // ---------------------------------------------------------------- exec / oracle
 
 type kernelRun struct {
+	lc     *lcWorld
 	vh     sets.String
 	known  sets.String
 	answer *answerWorld
@@ -290,6 +350,19 @@ func (k *kernelRun) step(f []string) (out string) {
 			}
 		}
 		return wire.EncList(kept)
+	case "lc":
+		if k.lc == nil {
+			k.lc = newLcWorld()
+		}
+		out := k.lc.lcStep(f[1], f[2], f[3])
+		// the kernel's clause on the real output: never a second entry for the key, a locked entry is never touched
+		if !strings.HasSuffix(out, "keys=1") && !(f[3] == "-" && strings.HasSuffix(out, "keys=0")) {
+			k.setFail("two-entries-for-one-key " + f[1] + " " + f[3])
+		}
+		if strings.HasSuffix(f[3], ":1") && !strings.HasPrefix(out, "skip") {
+			k.setFail("locked-entry-changed " + f[1] + " " + f[3])
+		}
+		return out
 	case "eds":
 		if k.answer == nil {
 			k.answer = newAnswerWorld()
